@@ -97,6 +97,7 @@ fn main() {
                         "C03" => engine_c::replay_c03(&r.config, &r.case),
                         "C16" => engine_c::replay_c16(&r.config, &r.case),
                         "C18" => engine_c::replay_c18(&r.config, &r.case),
+                        "C18m" => engine_c::replay_c18m(&r.config, &r.case),
                         _ => {
                             eprintln!("unknown engine {}", r.engine);
                             2
